@@ -177,6 +177,44 @@ func checkC15(rep *Report, rng *Rng, tier string) {
 				ops = append(ops[:at:at], append([]Op{{K: "copyto", N: []int{-1, 0, 1, 2, 5}[r.Intn(5)]}}, ops[at:]...)...)
 			}
 		}
+		if g.FileBacked && r.Chance(1, 2) {
+			// right after a re-open (nothing cached): a snapshot, ONE mutation of the original, then reads through the
+			// snapshot of the other keys -- a version that is still referenced must not end up with private copies of
+			// records whose references nobody gives back
+			var keys [][]byte
+			var names []string
+			for _, o := range ops {
+				if o.K == "set" && len(o.Key) > 0 && len(o.Key) < 100 {
+					keys = append(keys, o.Key)
+				}
+				if o.K == "coll" {
+					names = append(names, o.Name)
+				}
+			}
+			nsnap := 0
+			for _, o := range ops {
+				if o.K == "snap" {
+					nsnap++
+				}
+			}
+			if len(keys) > 1 && len(names) > 0 {
+				nm := names[r.Intn(len(names))]
+				extra := []Op{{K: "flush"}, {K: "reopen"}, {K: "snap"}}
+				k0 := keys[r.Intn(len(keys))]
+				if r.Chance(1, 2) {
+					extra = append(extra, Op{K: "del", Name: nm, Key: k0})
+				} else {
+					extra = append(extra, Op{K: "set", Name: nm, Key: k0, Val: []byte("replaced"), Prio: int32(r.U64() & 0x7fffffff)})
+				}
+				for q := 0; q < 4; q++ {
+					extra = append(extra, Op{K: "geti", H: nsnap + 1, Name: nm, Key: keys[r.Intn(len(keys))], WV: r.Chance(1, 2)})
+				}
+				if r.Chance(1, 2) {
+					extra = append(extra, Op{K: "close", H: nsnap + 1})
+				}
+				ops = append(ops, extra...)
+			}
+		}
 		for j := range ops {
 			// Get() cannot return the reference it takes (known finding, probed separately)
 			if ops[j].K == "get" {
